@@ -50,6 +50,9 @@ unsigned gh_env_pushes, gh_env_detaches;
 void *gh_det_curval; cv_i64 gh_det_val;            /* state->_cur_val and the value it points to at the instant of this thread's detaching exchange */
 #define CV_S_NODE_SNAPSHOT(n) (gh_push_handle = ((AWT *)(n))->_handle_addr, gh_push_fn = (void *)((AWT *)(n))->_resume_fn, gh_push_next = ((AWT *)(n))->_next)
 #define CV_S_ON_DETACH() do { if (gh_sg_blk != 0) { gh_det_curval = (void *)gh_sg_blk->obj._cur_val; gh_det_val = (gh_det_curval != 0 && __CPROVER_r_ok(gh_sg_blk->obj._cur_val, sizeof(*gh_sg_blk->obj._cur_val))) ? (cv_i64)*gh_sg_blk->obj._cur_val : 0; } } while (0)
+#ifndef CV_S_AFTER_PUSH
+#define CV_S_AFTER_PUSH()
+#endif
 #define PROTS_GHOSTS gh_my_node, gh_node_own, gh_seen, gh_n_slot_rmw, gh_n_push, gh_n_detach, gh_detached, gh_push_handle, gh_push_fn, gh_push_next, gh_push_seen, gh_env_pushes, gh_env_detaches, gh_det_curval, gh_det_val
 #define HAS_REL(o) ((o) == 3 || (o) == 4 || (o) == 5)
 #define HAS_ACQ(o) ((o) == 1 || (o) == 2 || (o) == 4 || (o) == 5)
@@ -106,7 +109,9 @@ cv_i1 cv_cmpxchg_i64(cv_i64 *p, cv_i64 *expected, cv_i64 desired, int weak, int 
       __CPROVER_assert(HAS_REL(so), "protocol S: the subscribing CAS must have release semantics (it publishes the node's handle / function / link)");
       CV_S_NODE_SNAPSHOT(desired);
       gh_node_own = OWN_CHAIN; gh_seen = cur; gh_push_seen = cur; gh_n_slot_rmw++; gh_n_push++;
-      *gh_S_slot = (void *)desired; return 1; }
+      *gh_S_slot = (void *)desired;
+      CV_S_AFTER_PUSH();      /* unit hook: from this instant the emitting thread may detach, resume and thereby DESTROY the node's owner */
+      return 1; }
     *expected = (cv_i64)cur; return 0; }
   cv_i64 old = *p;
   if (old == *expected && !(weak && nondet_bool())) { *p = desired; return 1; }
